@@ -12,7 +12,7 @@ import core
 from core import World, parse_fs, Line, hx
 from gen import Gen, mode_line, cfg_line
 import suites
-from suites import parse_snap, esc, exp_silent
+from suites import parse_snap, parse_snap_scan, esc, exp_silent
 
 
 def frame(tid, body):
@@ -258,12 +258,32 @@ def make_spec(g, allow=()):
     fresh = None
     if b'TestFresh' not in names and r.random() < 0.2:
         fresh = (r.choice(['fresh/dir', sd]), 'neverwritten', r.choice([1, 2]))
-    return dict(cfgs=cfgs, nfiles=nfiles, tests=tests, stale=stale, skipped=skipped, ends=ends, fresh=fresh,
+    # the prepared files as a checkout with core.autocrlf leaves them (CR LF / mixed line endings), or
+    # hand-edited: extra blank lines, notes and merge-conflict markers between the entries.  The
+    # recognised entries then take FEWER bytes than the file does
+    k = r.random()
+    crlf = r.choice(suites.CRLF_MODES) if k < 0.15 and not ends else None
+    gaps = 0.15 <= k < 0.27 and not ends
+    return dict(cfgs=cfgs, nfiles=nfiles, tests=tests, stale=stale, skipped=skipped, ends=ends, fresh=fresh, crlf=crlf, gaps=gaps,
                 count=r.choice([1, 1, 2, 3]), shuffle=r.randrange(1 << 30),
                 stale_files=r.sample(['old_test.snap', 'x.snapshot', 'gone_1.snap', 'a.snap.json'], r.choice([0, 0, 1, 2])),
                 decoys=r.random() < 0.6,
                 mode=r.choice([(False, ''), (False, 'clean'), (False, 'true'), (True, 'clean'), (False, 'other')]),
                 sort=r.choice(['-', '1', '1', '1'] if ('ends' in allow or 'big' in allow) else ['-', '0', '1', '1']), flags=set())
+
+
+# lines found between the entries of hand-edited files; none starts with `[` or equals `---`
+GAP_LINES = [b'', b'', b'   ', b'# hand-edited note', b'free text', b'<<<<<<< HEAD', b'=======', b'>>>>>>> feature/branch', b'\t', b'--', b'TestA - 1]']
+
+
+def parser_of(w):
+    """how the oracles read a multi-entry file of this world: byte-exact framing for files the
+    library wrote itself; as the line scanner sees them (CR dropped, free lines between entries
+    skipped) for files with other line endings / hand-edited spacing"""
+    spec = getattr(w, 'spec', None) or {}
+    if spec.get('crlf') or spec.get('gaps'):
+        return lambda c: parse_snap_scan(c, loose=bool(spec.get('gaps')))
+    return parse_snap
 
 
 def suffix_of(cfgline):
@@ -330,10 +350,23 @@ def render(tag, spec, oracles):
         w.add(cfg_line(spec['nfiles'] + 1, spec['fresh'][0], spec['fresh'][1], None, 'false'))
     per = layout(spec)
     ends = {c: (kind, sid, raw) for c, kind, sid, raw in spec.get('ends', ())}
+    if spec.get('crlf'):
+        w.flags.add('crlf-file')
+    if spec.get('gaps'):
+        w.flags.add('gaps-file')
     for cfgno, entries in per.items():
         if entries:
-            w.add('fsput %s %s' % (hx(suffix_of(spec['cfgs'][cfgno - 1])),
-                                   hx(b''.join(frame(i, b) for i, b, _ in entries) + (ends[cfgno][2] if cfgno in ends else b''))))
+            content = b''.join(frame(i, b) for i, b, _ in entries)
+            if spec.get('gaps'):
+                import random
+                rg = random.Random(spec['shuffle'] * 7 + cfgno)
+                content = b''.join(b''.join(l + b'\n' for l in rg.sample(GAP_LINES, rg.randint(0, 3))) + frame(i, b) for i, b, _ in entries)
+                content += b''.join(l + b'\n' for l in rg.sample(GAP_LINES, rg.randint(0, 2)))
+            if cfgno in ends:
+                content += ends[cfgno][2]
+            w.add('fsput %s %s' % (hx(suffix_of(spec['cfgs'][cfgno - 1])), hx(content)))
+            if spec.get('crlf'):
+                w.add('fscrlf %s %s' % (spec['crlf'], hx(suffix_of(spec['cfgs'][cfgno - 1]))))
     w.meta['ends'] = {c: e for c, e in ends.items() if per.get(c)}
     alldirs = sorted(set(suffix_of(c).rsplit('/', 1)[0] for cfgno, c in enumerate(spec['cfgs'], 1) if per[cfgno]))
     # directories Clean visits: those of files some call addresses
@@ -421,7 +454,7 @@ def entries_in(w, cfgno, content):
     formed as a whole"""
     if cfgno in w.meta.get('ends', {}):
         return parse_snap_prefix(content)[0]
-    return parse_snap(content)
+    return parser_of(w)(content)
 
 
 def end_id(w, cfgno):
@@ -579,11 +612,15 @@ def o_rewrite_preserves(w):
     return None
 
 
-def big_clean_spec(g, mode=(False, ''), sort='-'):
+def big_clean_spec(g, mode=(False, ''), sort='-', lines=1):
     """a used snapshot file of about 11 KiB: 80 entries of one test, an obsolete entry near the top,
-    another one in the middle (ids must survive the scanner's buffer refills)"""
+    another one in the middle (ids must survive the scanner's buffer refills).  lines > 1: bodies of
+    that many lines (about 25 KiB for 12), so that some BODY is being captured at every refill of
+    the scanner's 4 KiB window"""
     # (bodies of one to four lines: an entry's lines lie on both sides of a refill of the scanner's window)
     calls = [(1, b'\n'.join(b'value %03d.%d %s' % (k, j, b'v' * ((90 + k % 11) // (1 + k % 4))) for j in range(1 + k % 4))) for k in range(80)]
+    if lines > 1:
+        calls = [(1, b'\n'.join(b'entry %03d line %02d %s' % (k, j, b'w' * ((k * 5 + j) % 29)) for j in range(lines))) for k in range(60)]
     stale = [(1, b'TestGoneEarly/sub - 1', b'old early'), (1, b'TestGoneMiddle - 3', b'old middle\nsecond line')]
     return dict(cfgs=[cfg_line(1, 'snaps')], nfiles=1, tests=[(b'TestBigClean', calls)], stale=stale, count=1, shuffle=4,
                 stale_files=[], decoys=False, mode=mode, sort=sort, flags=set())
@@ -678,6 +715,21 @@ def tie_specs():
             for sh in (1, 2, 3, 7, 8):
                 out.append(dict(cfgs=[cfg_line(1, 'snaps')], nfiles=1, tests=tests, stale=[(1, b'TestGone - 1', b'stale')] if sh % 2 else [],
                                 count=1, shuffle=sh, stale_files=[], decoys=False, mode=mode, sort=srt, flags=set()))
+    return out
+
+
+def eol_specs():
+    """files whose recognised entries take fewer bytes than the file: CR LF / mixed line endings,
+    or extra lines between the entries; unsorted (shuffle seeds chosen so), with and without a
+    stale entry, in every mode x sort combination that can rewrite or must not"""
+    out = []
+    tests = [(b'TestAlpha', [(1, b'alpha')]), (b'TestBeta', [(1, b'beta one'), (1, b'beta\ntwo\n'), (1, b'---\nthree')]),
+             (b'TestGamma/sub', [(1, b'gamma %d' % k) for k in range(1, 4)])]
+    for crlf, gaps in (('all', False), ('odd', False), ('even', False), (None, True), ('all', True)):
+        for mode, srt in (((False, ''), '1'), ((False, 'clean'), '1'), ((False, 'clean'), '-'), ((False, 'other'), '1'), ((True, 'clean'), '1'), ((False, ''), '-')):
+            for sh in (1, 2, 3):
+                out.append(dict(cfgs=[cfg_line(1, 'snaps')], nfiles=1, tests=tests, stale=[(1, b'TestGone - 1', b'stale\nbody')] if sh == 2 else [],
+                                count=1, shuffle=sh, stale_files=[], decoys=False, mode=mode, sort=srt, flags=set(), crlf=crlf, gaps=gaps))
     return out
 
 
